@@ -48,6 +48,7 @@ type Ev struct {
 	Blocking bool // select / channel op
 	Fn       RV   // resolved callee value of a dynamic call
 	Taken    bool // branch events: the edge taken
+	Folded   bool // branch events: the condition was decided by what the path already knows
 	Base     RV   // field load/store events: the (resolved) struct pointer
 	Field    *types.Var
 	Note     string       // free-form payload (facts emitted by probes)
@@ -76,11 +77,12 @@ type State struct {
 	canon   map[string]RV // canonical load of a cell with unknown content
 	nilOf   map[RV]bool   // values whose nil test was decided at a branch on this path: true = nil
 	lens    map[RV]int64  // length of the slice an append produced when it last ran on this path
+	elems   map[RV][]RV   // elements of a slice built on this path by appending literal elements onto a nil / empty / known slice
 	loaded  map[RV]RV     // content of a local cell as of the last execution of a load instruction (a later store to the cell does not change what was loaded)
 }
 
 func newState() *State {
-	return &State{loaded: map[RV]RV{}, lens: map[RV]int64{}, nilOf: map[RV]bool{}, canon: map[string]RV{}, mem: map[string]RV{}, bind: map[RV][]RV{}, sel: map[RV]int{}, phi: map[RV]RV{}, visits: map[[2]int]int{}, dargs: map[*Frame][][]RV{},
+	return &State{elems: map[RV][]RV{}, loaded: map[RV]RV{}, lens: map[RV]int64{}, nilOf: map[RV]bool{}, canon: map[string]RV{}, mem: map[string]RV{}, bind: map[RV][]RV{}, sel: map[RV]int{}, phi: map[RV]RV{}, visits: map[[2]int]int{}, dargs: map[*Frame][][]RV{},
 		defers: map[*Frame][]*ssa.Defer{}, decided: map[RV]bool{}}
 }
 
@@ -97,6 +99,9 @@ func (s *State) clone() *State {
 	}
 	for k, v := range s.loaded {
 		n.loaded[k] = v
+	}
+	for k, v := range s.elems {
+		n.elems[k] = v
 	}
 	for k, v := range s.bind {
 		n.bind[k] = v
@@ -461,6 +466,18 @@ func (e *PPA) Resolve(st *State, rv RV) RV {
 			if lv, ok := st.loaded[rv]; ok {
 				rv = lv
 				continue
+			}
+			// s[k] of a slice whose elements were collected on this path, k a constant or a folded counter
+			if ia, isIA := v.X.(*ssa.IndexAddr); isIA && len(st.elems) > 0 && e.resDepth < 24 {
+				if _, isSlice := ia.X.Type().Underlying().(*types.Slice); isSlice {
+					sx := e.Resolve(st, RV{rv.F, ia.X})
+					if els, ok := st.elems[sx]; ok {
+						if k, ok := e.intVal(st, e.Resolve(st, RV{rv.F, ia.Index}), 0); ok && k >= 0 && int(k) < len(els) {
+							rv = els[k]
+							continue
+						}
+					}
+				}
 			}
 			if key, ok := e.cellKey(st, RV{rv.F, v.X}); ok {
 				if val, ok := st.mem[key]; ok {
@@ -917,6 +934,24 @@ func (e *PPA) exec(fr *Frame, b *ssa.BasicBlock, i int, st *State, k cont) {
 					} else {
 						delete(st.lens, self)
 					}
+					// ... and its elements, when the base's are known and literal elements are appended
+					// (children collected into a slice by one function and processed by another)
+					bv := e.Resolve(st, RV{fr, in.Call.Args[0]})
+					var bels []RV
+					okEls := false
+					if els, ok := st.elems[bv]; ok {
+						bels, okEls = els, true // (in a loop the base is the previous execution of this very append)
+					} else if bl, ok := e.sliceLen(st, bv, 0); ok && bl == 0 {
+						okEls = true
+					}
+					delete(st.elems, self)
+					if okEls {
+						if lits, ok := e.sliceLitElems(st, RV{fr, in.Call.Args[1]}); ok {
+							st.elems[self] = append(append([]RV(nil), bels...), lits...)
+						} else if isNilConst(in.Call.Args[1]) {
+							st.elems[self] = append([]RV(nil), bels...)
+						}
+					}
 				}
 				if name == "close" || name == "delete" || name == "append" || name == "panic" || name == "copy" {
 					ev := e.callEv(st, fr, in, "")
@@ -968,7 +1003,7 @@ func (e *PPA) exec(fr *Frame, b *ssa.BasicBlock, i int, st *State, k cont) {
 			rc := e.Resolve(st, c)
 			if known {
 				if e.TraceBranches {
-					e.emit(st, Ev{Label: "if", In: in, F: fr, Args: []RV{rc}, Taken: val})
+					e.emit(st, Ev{Label: "if", In: in, F: fr, Args: []RV{rc}, Taken: val, Folded: true})
 				}
 				if val {
 					e.enter(fr, b, tb, st, k)
@@ -1579,7 +1614,7 @@ func (e *PPA) baseObj(st *State, rv RV) RV {
 		if !ok {
 			break
 		}
-		if v := fieldVar(fa.X.Type(), fa.Field); v == nil || !v.Embedded() {
+		if v := fieldVar(fa.X.Type(), fa.Field); v == nil || !(v.Embedded() || groupField[v]) {
 			break
 		}
 		r = e.Resolve(st, RV{r.F, fa.X})
